@@ -125,7 +125,7 @@ enum Expect<T> {
     Error,
 }
 
-fn reference<T: DeserializeOwned>(s: &Script) -> Option<T> {
+fn reference<T: DeserializeOwned + Clone + 'static>(s: &Script) -> Option<T> {
     if script::has_err(s) {
         return None;
     }
@@ -140,7 +140,78 @@ fn reference<T: DeserializeOwned>(s: &Script) -> Option<T> {
     if kind_ok::<T>(&tree) == Some(false) {
         return None;
     }
+    // classes whose value is computed here, without the subject's deserializer
+    if let Some(v) = independent_value::<T>(&tree) {
+        return v;
+    }
     conjure_serde::json::client_from_slice(&body).ok()
+}
+
+/// strict padded standard Base64
+fn b64(s: &str) -> Option<Vec<u8>> {
+    const A: &[u8] = b"ABCDEFGHIJKLMNOPQRSTUVWXYZabcdefghijklmnopqrstuvwxyz0123456789+/";
+    let b = s.as_bytes();
+    if b.len() % 4 != 0 {
+        return None;
+    }
+    let mut out = vec![];
+    for (ci, q) in b.chunks(4).enumerate() {
+        let last = ci + 1 == b.len() / 4;
+        let pad = q.iter().rev().take_while(|c| **c == b'=').count();
+        if pad > 2 || (pad > 0 && !last) {
+            return None;
+        }
+        let mut v = 0u32;
+        for c in &q[..4 - pad] {
+            v = (v << 6) | A.iter().position(|a| a == c)? as u32;
+        }
+        v <<= 6 * pad as u32;
+        let bytes = [(v >> 16) as u8, (v >> 8) as u8, v as u8];
+        // canonical: the unused bits of the last group are zero
+        if pad == 1 && bytes[2] != 0 || pad == 2 && (bytes[1] != 0 || bytes[2] != 0) {
+            return None;
+        }
+        out.extend_from_slice(&bytes[..3 - pad]);
+    }
+    Some(out)
+}
+
+/// Some(Some(v)) = the document is v; Some(None) = not a document of the class; None = no rule here
+fn independent_value<T: 'static + Clone>(v: &serde_json::Value) -> Option<Option<T>> {
+    use std::any::Any as StdAny;
+    fn cast<A: 'static + Clone, T: 'static + Clone>(a: Option<A>) -> Option<Option<T>> {
+        Some(a.and_then(|x| (&x as &dyn StdAny).downcast_ref::<T>().cloned()))
+    }
+    let double = |x: &serde_json::Value| -> Option<f64> {
+        match x {
+            serde_json::Value::Number(n) => n.as_f64(),
+            serde_json::Value::String(s) if s == "NaN" => Some(f64::NAN),
+            serde_json::Value::String(s) if s == "Infinity" => Some(f64::INFINITY),
+            serde_json::Value::String(s) if s == "-Infinity" => Some(f64::NEG_INFINITY),
+            _ => None,
+        }
+    };
+    let name = std::any::type_name::<T>();
+    if name == std::any::type_name::<Option<f64>>() {
+        return cast::<Option<f64>, T>(if v.is_null() { Some(None) } else { double(v).map(Some) });
+    }
+    if name == std::any::type_name::<Option<Vec<conjure_object::Bytes>>>() {
+        let val: Option<Option<Vec<conjure_object::Bytes>>> = if v.is_null() {
+            Some(None)
+        } else {
+            v.as_array().and_then(|a| a.iter().map(|x| x.as_str().and_then(b64).map(conjure_object::Bytes::from)).collect::<Option<Vec<_>>>()).map(Some)
+        };
+        return cast::<Option<Vec<conjure_object::Bytes>>, T>(val);
+    }
+    if name == std::any::type_name::<Option<BTreeMap<String, conjure_object::Bytes>>>() {
+        let val: Option<Option<BTreeMap<String, conjure_object::Bytes>>> = if v.is_null() {
+            Some(None)
+        } else {
+            v.as_object().and_then(|o| o.iter().map(|(k, x)| x.as_str().and_then(b64).map(|b| (k.clone(), conjure_object::Bytes::from(b)))).collect::<Option<BTreeMap<_, _>>>()).map(Some)
+        };
+        return cast::<Option<BTreeMap<String, conjure_object::Bytes>>, T>(val);
+    }
+    None
 }
 
 /// Some(verdict) for the classes with a simple independent typing rule, None otherwise
@@ -185,12 +256,15 @@ fn near_misses<T>() -> Vec<&'static str> {
         // (`null` is not a collection: only a 204 stands for the empty one)
         "alloc::vec::Vec<i32>" => vec!["[\"1\"]", "[1.5]", "[null]", "{}", "1", "[[1]]", "[2147483648]", "null", " null ", "\"\"", "false", "0"],
         n if n.contains("BTreeSet<alloc::string::String>") => vec!["[1]", "[null]", "{}", "\"a\"", "null", "\"\"", "false"],
+        n if n == std::any::type_name::<Option<f64>>() => vec!["\"inf\"", "\"1.5\"", "true", "[1.5]", "\"nan\""],
+        n if n == std::any::type_name::<Option<Vec<conjure_object::Bytes>>>() => vec!["[\"not base64!\"]", "[[104,105]]", "[\"aGk\"]", "[\"aGl=\"]", "\"aGk=\"", "[null]", "[1]"],
+        n if n == std::any::type_name::<Option<BTreeMap<String, conjure_object::Bytes>>>() => vec!["{\"k\":\"not base64!\"}", "{\"k\":[104]}", "[]", "{\"k\":null}"],
         n if n.contains("BTreeMap<alloc::string::String, i32>") => vec!["{\"a\":\"1\"}", "{\"a\":1.5}", "[]", "{\"a\":null}", "null", "\"\"", "false", "0"],
         _ => vec![],
     }
 }
 
-fn expect_json<T: DeserializeOwned + Clone>(status: u16, ct: Ct, s: &Script, empty: Option<T>) -> Expect<T> {
+fn expect_json<T: DeserializeOwned + Clone + 'static>(status: u16, ct: Ct, s: &Script, empty: Option<T>) -> Expect<T> {
     let doc = reference::<T>(s);
     let mut allowed = vec![];
     if status == 204 {
@@ -291,7 +365,7 @@ fn agree(r: &mut Report, case: &Case, a: Option<bool>, b: Option<bool>) {
 
 fn run_value<T>(r: &mut Report, class: &'static str, status: u16, ct: Ct, s: &Script)
 where
-    T: DeserializeOwned + PartialEq + Debug + Clone + Send,
+    T: DeserializeOwned + PartialEq + Debug + Clone + Send + 'static,
 {
     let want = expect_json::<T>(status, ct, s, None);
     for func in ["decode_serializable_response", "ConjureResponseDeserializer"] {
@@ -325,7 +399,7 @@ where
 
 fn run_default<T>(r: &mut Report, class: &'static str, status: u16, ct: Ct, s: &Script)
 where
-    T: DeserializeOwned + PartialEq + Debug + Clone + Default + Send,
+    T: DeserializeOwned + PartialEq + Debug + Clone + Default + Send + 'static,
 {
     let want = expect_json::<T>(status, ct, s, Some(T::default()));
     let case = Case { class, func: "decode_default_serializable_response", status, ct, script: s };
@@ -395,12 +469,16 @@ macro_rules! for_classes {
         $default::<BTreeSet<String>>("set<string>", &["[]", "[\"a\",\"b\"]"], $($args),*);
         $default::<BTreeMap<String, i32>>("map<string,integer>", &["{}", "{\"a\":1}"], $($args),*);
         $default::<Option<Obj>>("optional<object>", &["null", "{\"a\":1,\"extra\":true}"], $($args),*);
+        // optionals at the document root over types with a Conjure spelling of their own
+        $default::<Option<f64>>("optional<double>", &["null", "1.5", "\"Infinity\"", "\"NaN\""], $($args),*);
+        $default::<Option<Vec<conjure_object::Bytes>>>("optional<list<binary>>", &["null", "[\"aGk=\"]", "[\"\",\"+/+/\"]"], $($args),*);
+        $default::<Option<BTreeMap<String, conjure_object::Bytes>>>("optional<map<string,binary>>", &["null", "{\"k\":\"aGk=\"}"], $($args),*);
     };
 }
 
 fn sweep_value<T>(class: &'static str, valid: &[&str], r: &mut Report, k: usize, thorough: bool)
 where
-    T: DeserializeOwned + PartialEq + Debug + Clone + Send,
+    T: DeserializeOwned + PartialEq + Debug + Clone + Send + 'static,
 {
     sweep(class, valid, r, k, thorough, &|r, status, ct, s| run_value::<T>(r, class, status, ct, s));
     for body in near_misses::<T>() {
@@ -430,7 +508,7 @@ where
 
 fn sweep_default<T>(class: &'static str, valid: &[&str], r: &mut Report, k: usize, thorough: bool)
 where
-    T: DeserializeOwned + PartialEq + Debug + Clone + Default + Send,
+    T: DeserializeOwned + PartialEq + Debug + Clone + Default + Send + 'static,
 {
     sweep(class, valid, r, k, thorough, &|r, status, ct, s| run_default::<T>(r, class, status, ct, s));
     for body in near_misses::<T>() {
@@ -606,12 +684,12 @@ fn replay(path: &str, mut report: Report) -> Report {
         "unit" => run_unit(&mut report, status, ct, &script),
         "binary" | "optional<binary>" => run_binary(&mut report, status, ct, &script),
         _ => {
-            fn v1<T: DeserializeOwned + PartialEq + Debug + Clone + Send>(name: &'static str, _v: &[&str], want: &str, r: &mut Report, status: u16, ct: Ct, s: &Script) {
+            fn v1<T: DeserializeOwned + PartialEq + Debug + Clone + Send + 'static>(name: &'static str, _v: &[&str], want: &str, r: &mut Report, status: u16, ct: Ct, s: &Script) {
                 if name == want {
                     run_value::<T>(r, name, status, ct, s);
                 }
             }
-            fn d1<T: DeserializeOwned + PartialEq + Debug + Clone + Default + Send>(name: &'static str, _v: &[&str], want: &str, r: &mut Report, status: u16, ct: Ct, s: &Script) {
+            fn d1<T: DeserializeOwned + PartialEq + Debug + Clone + Default + Send + 'static>(name: &'static str, _v: &[&str], want: &str, r: &mut Report, status: u16, ct: Ct, s: &Script) {
                 if name == want {
                     run_default::<T>(r, name, status, ct, s);
                 }
